@@ -239,6 +239,8 @@ Section Confined.
     pose proof (inode_inE _ _ _ HI Ha) as Hd.
     destruct (negb (is_safe_inode (id_mode d)));
       [inversion H; subst; split; [apply good_refl; exact HI | intros; discriminate]|].
+    destruct (c_ifh cf && negb (euid (p_creds s) =? 0));
+      [inversion H; subst; split; [apply good_refl; exact HI | intros; discriminate]|].
     match type of H with context [sys_reopen ?c ?h ?i ?f] => destruct (sys_reopen c h i f) as [rr h'] eqn:Hr end.
     assert (Hcf : conf (p_host s) h') by (eapply sys_reopen_conf; [apply HI | exact Hd | exact Hr]).
     destruct rr; inversion H; subst; (split; [apply good_with_host; assumption|]).
